@@ -272,6 +272,9 @@ def run(ctx):
     from .c16 import dict_order as _dict_order
     reuse(ctx, lambda c: _dict_order(c, repo, "C13.dictorder"), ("C13.dictorder",), "C10load",
           "column-order rule shared with C13: a population reloaded from HDF5 (which sorts keys) must get its columns back by parameter name, or row i no longer is the point its cached densities were evaluated at")
+    from . import c13 as _c13
+    reuse(ctx, _c13.run, ("C13.flow", "C13.nomut"), "C10rt", "flow round-trip rules shared with C13: the log-proposal values a restored population carries were computed with the flow (and its data transform) that was saved; "
+          "a flow that reloads -- or is saved a second time -- without its transform is a different function of the same coordinates")
     reuse(ctx, c14.run, ("C14.flow",), "C10file", "stale-flow rule shared with C14: after a resume log_q is recomputed with the flow stored in the file")
 
     # ------------------------------------------------------------ who may write x
@@ -442,6 +445,7 @@ MUTANTS += [
     M("fit copies only without periodic parameters", _T, "x = copy_array(x, xp=self.xp)\n        if self.periodic_parameters:", "if not self.periodic_parameters:\n            x = copy_array(x, xp=self.xp)\n        if self.periodic_parameters:", "C10.own"),
     M("private helper writes into an array its caller did not copy", _T, "y, log_j_bounded = self._bounded_transform.forward(\n                x[..., self.bounded_mask]\n            )\n            x = update_at_indices(x, (slice(None), self.bounded_mask), y)\n            log_abs_det_jacobian += log_j_bounded", "x, log_j_bounded = self._put_bounded(x, self._bounded_transform.forward)\n            log_abs_det_jacobian += log_j_bounded",
       within="CompositeTransform", more=[("def forward(self, x):\n        x = copy_array(x, xp=self.xp)", "def _put_bounded(self, x, func):\n        y, log_j = func(x[..., self.bounded_mask])\n        x = update_at_indices(x, (slice(None), self.bounded_mask), y)\n        return x, log_j\n\n    def forward(self, x):\n        x = self.xp.asarray(x)")], expect="C10.own"),
+    M("saving a flow removes the data transform from its recorded constructor arguments", "src/aspire/flows/torch/flows.py", "config = self.config_dict().copy()\n        data_transform = config.pop(\"data_transform\", None)", "config = self.config_dict()\n        data_transform = config.pop(\"data_transform\", None)\n        config = dict(config)", "C10rt"),
     M("nan patch written into the cached likelihood", "src/aspire/samplers/smc/base.py", "log_prob = update_at_indices(\n            log_prob, self.xp.isnan(log_prob), -self.xp.inf\n        )", "update_at_indices(samples.log_likelihood, self.xp.isnan(log_prob), -self.xp.inf)", "C10.own"),
 ]
 NEUTRALS = [
